@@ -374,6 +374,30 @@ func ruleLabelPropertyPairs(c *Ctx) {
 		return isC && b
 	}, []Ev{guardRel("label key == configured key", "==", loadOfField(key), loadOfField(cfgKey)), guardRel("label value == configured value", "==", loadOfField(val), loadOfField(cfgVal))}, all,
 		"true only for a store label equal in key and value to one configured entry, the entry read from the list itself")
+	// "no" is answered only after every (entry, label) pair was compared: inside the loops the only answer is true
+	okEarly := true
+	for _, b := range fn.Blocks {
+		r, ok := b.Instrs[len(b.Instrs)-1].(*ssa.Return)
+		if !ok || len(r.Results) != 1 {
+			continue
+		}
+		// reached from inside a loop body (not from a loop's own exit test)?
+		fromBody := false
+		for _, p := range b.Preds {
+			for _, l := range loopsOf(fn) {
+				if l.blocks[p] && p != l.header {
+					fromBody = true
+				}
+			}
+		}
+		if !fromBody {
+			continue
+		}
+		if v, isC := constBool(retVal(r, 0)); !isC || !v {
+			okEarly = false
+		}
+	}
+	c.Check(okEarly, rule, "answers given inside the loops of "+fnName(fn), "only 'true' (a match); a mismatch of one pair goes on to the next pair — entries and labels may share keys", P.pos(fn.Pos()), "a pair that does not match ends the search")
 	// no map built over the configured entries
 	folded := false
 	for _, b := range fn.Blocks {
@@ -434,7 +458,54 @@ func init() {
 		c.Group("C11/role-preserved", "a moved peer keeps its role (copied from the replaced peer found by store regardless of role)", func() { ruleRolePreserved(c) })
 		c.Group("C11/leader-to-follower", "leadership is transferred only to stores holding a follower of the region", func() { ruleLeaderTransferTargets(c) })
 		c.Group("C11/scatter-one-target-per-peer", "the scatterer never lets two origin peers end on one store", func() { ruleScatterOneTargetPerPeer(c) })
-		c.Group("C11/filter-predicates", "(shared with C10) store-state condition lists and filter predicates; reject-leader label entries compared one by one", func() { ruleFilterPredicates(c); ruleLabelPropertyPairs(c) })
+		c.Group("C11/filter-predicates", "(shared with C10) store-state condition lists and filter predicates; reject-leader label entries compared one by one", func() { ruleFilterPredicates(c); ruleLabelPropertyPairs(c); ruleStoreCopiesKeepRuntimeState(c) })
 		c.Group("C11/id-kind", "(shared with C09) store ids, peer ids and region ids are not mixed in the schedulers", func() { ruleIDKinds(c, "server/schedulers", "server/schedule") })
 	})
+}
+
+// ruleStoreCopiesKeepRuntimeState: "this store does not accept leaders now"
+// (paused by evict-leader / grant-leader) and the store-limit hooks live in
+// unexported fields of StoreInfo. A view of a store handed to schedulers and to
+// the operator builder must be made with Clone, which keeps them; rebuilding a
+// store from the meta of an existing one (NewStoreInfo(s.GetMeta(), …)) drops
+// them, and both the scheduler filter and allowLeader then let leaders onto it.
+func ruleStoreCopiesKeepRuntimeState(c *Ctx) {
+	P := c.P
+	rule := c.Prop + "/filter-predicates"
+	newSI := P.Func("server/core", "NewStoreInfo")
+	getMeta := F(P.Method("server/core", "StoreInfo", "GetMeta"))
+	sites, _ := c.nonScaffoldCallers(newSI)
+	n := 0
+	for _, s := range sites {
+		a := callArgs(s.Instr.Common())
+		if len(a) == 0 {
+			continue
+		}
+		n++
+		c.saw(fnName(s.Caller))
+		c.Check(!derivesFrom(a[0], resultOfCall(getMeta), 3), rule, fmt.Sprintf("NewStoreInfo in %s", fnName(s.Caller)), "builds a store from a request or a loaded record, never from the meta of an existing StoreInfo (use Clone: it keeps the pause-leader flag and the limit hooks)", P.instrPos(s.Instr.(ssa.Instruction)), "an existing store is rebuilt without its runtime state")
+	}
+	if n < 2 {
+		c.Undec(rule, "callers of NewStoreInfo", "at least 2 (registration, load)", "", fmt.Sprint(n))
+	}
+	// the range view of a store is a clone
+	up := P.Method("server/schedule", "RangeCluster", "updateStoreInfo")
+	clone := F(P.Method("server/core", "StoreInfo", "Clone"))
+	okClone, nRet := true, 0
+	for _, b := range up.Blocks {
+		r, ok := b.Instrs[len(b.Instrs)-1].(*ssa.Return)
+		if !ok || len(r.Results) != 1 {
+			continue
+		}
+		for _, alt := range valueAlternatives(retVal(r, 0), 3) {
+			nRet++
+			if _, isParam := strip(alt).(*ssa.Parameter); isParam {
+				continue
+			}
+			if !valueIsCallTo(alt, clone) {
+				okClone = false
+			}
+		}
+	}
+	c.Check(okClone && nRet > 0, rule, "store view of "+fnName(up), "the store itself or a Clone of it", P.pos(up.Pos()), "")
 }
